@@ -344,3 +344,38 @@ Theorem C08_three_commits_commit_model_example :
   exec_storeN ExC.pathsA ExN.decls3 4%N <> [].
 Proof. exact (conj ExN.three_commits_closed ExN.three_commits). Qed.
 Print Assumptions C08_three_commits_commit_model_example.
+
+(* ---------------------------------------------------------------- the n-commit theorem with EXECUTABLE hypotheses
+   (Proofs/C08_segb.v): when the boolean checks say true, n commits leave the store of the single commit *)
+Require Import Verif.Proofs.C08_segb.
+
+Theorem C08_closed_segsb_sound : forall segs, closed_segsb segs = true -> closed_segs segs.
+Proof. exact closed_segsb_sound. Qed.
+Print Assumptions C08_closed_segsb_sound.
+
+Theorem C08_seq_same_phaseb_sound : forall l, seq_same_phaseb l = true -> seq_same_phase l.
+Proof. exact seq_same_phaseb_sound. Qed.
+Print Assumptions C08_seq_same_phaseb_sound.
+
+Theorem C08_checked_segs_commit_equiv : forall segs,
+  NoDup (map sid (concat segs)) -> h1b (concat segs) = true -> h2b (concat segs) = true ->
+  closed_segsb segs = true -> seq_same_phaseb (concat segs) = true ->
+  store_eq (finalN segs) (final (concat segs)).
+Proof. exact checked_segs_commit_equiv. Qed.
+Print Assumptions C08_checked_segs_commit_equiv.
+
+(* one cut, with the check the extracted model returns as its 7th flag *)
+Theorem C08_checked_two_commits_equiv : forall a b,
+  NoDup (map sid (a ++ b)) -> h1b (a ++ b) = true -> h2b (a ++ b) = true ->
+  closed_prefixb a b = true -> seq_same_phaseb (a ++ b) = true ->
+  store_eq (final2 a b) (final (a ++ b)).
+Proof. exact checked_two_commits_equiv. Qed.
+Print Assumptions C08_checked_two_commits_equiv.
+
+(* non-vacuity: all checks true on the three-commit example, the closedness check false on the open cut *)
+Theorem C08_checks_on_three_commits :
+  h1b (concat SegNEx.segs3) = true /\ h2b (concat SegNEx.segs3) = true /\
+  closed_segsb SegNEx.segs3 = true /\ seq_same_phaseb (concat SegNEx.segs3) = true /\
+  closed_segsb [[SegEx.rd]; [SegEx.wr]; [SegEx.other]] = false.
+Proof. exact checks_on_three_commits. Qed.
+Print Assumptions C08_checks_on_three_commits.
